@@ -786,3 +786,122 @@ theorem deferConstant_error {s s' : State} {n : Bytes} {r : Realm} {e : CErr}
       · split at h <;> cases h; rfl
 
 end Trion.Scope
+
+namespace Trion.Scope
+
+/-! ## a reachable-state invariant: `locals` is `Some` exactly while a file is open -/
+
+def framesOk : List Saved → Prop
+  | [] => True
+  | f :: fs => (f.constants.isSome ↔ fs ≠ []) ∧ framesOk fs
+
+/-- `locals.is_some()` iff an `assemble` call is active, and each saved table is `Some` iff there is an outer frame -/
+structure Open (s : State) : Prop where
+  locals : s.locals.isSome ↔ s.frames ≠ []
+  frames : framesOk s.frames
+
+theorem open_init : Open init := ⟨by simp [init], trivial⟩
+
+theorem open_enterFile {s : State} (h : Open s) (tag : Nat) : Open (enterFile s tag) := by
+  unfold enterFile
+  constructor
+  · simp
+  · cases hl : s.locals with
+    | none =>
+      have : s.frames = [] := by
+        by_cases hf : s.frames = []
+        · exact hf
+        · have := h.locals.2 hf; rw [hl] at this; cases this
+      cases ht : s.localTasks <;> simp [framesOk, this]
+    | some c =>
+      have : s.frames ≠ [] := h.locals.1 (by rw [hl]; rfl)
+      cases ht : s.localTasks <;> simp [framesOk, this, h.frames]
+
+theorem open_of_eff {s s' : State} (h : Open s) (e : Eff s s') : Open s' :=
+  ⟨by rw [optLe_isSome e.locals, e.frames]; exact h.locals, by rw [e.frames]; exact h.frames⟩
+
+theorem open_intoInner {s s' : State} {f : Saved} {fs : List Saved} (hf : s.frames = f :: fs) (h : Open s)
+    (hi : intoInner s f fs = .ok s') : Open s' := by
+  have hfo := h.frames
+  rw [hf] at hfo
+  unfold intoInner at hi
+  split at hi
+  · cases hi
+  · split at hi
+    · cases hi
+    · have h1 := hfo.1
+      cases hc : f.constants <;> cases ht : f.tasks <;> simp only [hc, ht] at hi h1 <;> cases hi <;>
+        exact ⟨by simpa using h1, hfo.2⟩
+
+theorem open_exitFile {s s' : State} {r : Option Level} (h : Open s) (he : exitFile s r = .ok s') : Open s' := by
+  unfold exitFile at he
+  split at he
+  · cases he; exact h
+  · rename_i f fs hf
+    simp only at he
+    split at he
+    · cases he
+    · rename_i mid r' hloop
+      have hmid : Eff s mid := by
+        split at hloop
+        · cases hloop; exact Eff.refl _
+        · split at hloop
+          · cases hloop
+          · rename_i tasks ht
+            have e1 : Eff s { s with localTasks := some [] } :=
+              ⟨rfl, rfl, rfl, optLe_refl _, Table.le_refl _, by simp [ht]⟩
+            exact e1.trans (eff_localLoop _ _ hloop)
+      have hom := open_of_eff h hmid
+      split at he
+      · cases he
+      · rename_i s2 hin
+        have ho2 := open_intoInner (by rw [hmid.frames, hf]) hom hin
+        split at he <;> cases he
+        · exact ⟨ho2.locals, ho2.frames⟩
+        · exact ⟨ho2.locals, ho2.frames⟩
+
+theorem open_step {s s' : State} {op : Op} (h : Open s) (hs : step s op = .ok s') : Open s' := by
+  cases hm : s.mode with
+  | stopped l k =>
+    cases op <;> cases k <;> simp only [step, hm] at hs
+    all_goals first
+      | (cases hs; exact ⟨h.locals, h.frames⟩)
+      | exact open_exitFile h hs
+  | running =>
+    have stmtCase : ∀ (h' : (match s.frames with
+        | [] => Except.ok s
+        | _ :: _ =>
+          match stmt s op with
+          | .error p => .error p
+          | .ok (s, none) => .ok s
+          | .ok (s, some l) => .ok { s with mode := .stopped l 0 }) = Except.ok s'), Open s' := by
+      intro h'
+      split at h'
+      · cases h'; exact h
+      · split at h'
+        · cases h'
+        · rename_i hst; cases h'; exact open_of_eff h (eff_stmt hst)
+        · rename_i hst; cases h'
+          have := open_of_eff h (eff_stmt hst)
+          exact ⟨this.locals, this.frames⟩
+    cases op with
+    | enter tag => simp only [step, hm] at hs; cases hs; exact open_enterFile h tag
+    | exit => simp only [step, hm] at hs; exact open_exitFile h hs
+    | finalize => simp only [step, hm] at hs; exact open_of_eff h (eff_finalize hs)
+    | label n v tag => simp only [step, hm] at hs; exact stmtCase hs
+    | const n v tag => simp only [step, hm] at hs; exact stmtCase hs
+    | global n tag => simp only [step, hm] at hs; exact stmtCase hs
+    | «import» n tag => simp only [step, hm] at hs; exact stmtCase hs
+    | «export» n tag => simp only [step, hm] at hs; exact stmtCase hs
+    | use n tag => simp only [step, hm] at hs; exact stmtCase hs
+
+theorem open_run : ∀ (ops : List Op) {s s' : State}, Open s → run s ops = .ok s' → Open s'
+  | [], s, s', h, hr => by simp only [run] at hr; cases hr; exact h
+  | op :: ops, s, s', h, hr => by
+    simp only [run] at hr
+    split at hr
+    · cases hr
+    · rename_i s1 hs
+      exact open_run ops (open_step h hs) hr
+
+end Trion.Scope
